@@ -247,7 +247,7 @@ prop('C16',
      scenarios=lambda tier: [sc('httpapi')] * (2 if tier == 'quick' else 8) + [sc('conc')],
      diverge={'A': None, 'U': {'accept', 'post'}},
      nontrivial_line=lambda k, line: k == 'A',
-     rule='histories of accepted and refused updates over 1..4 logs (IDs from log.ID) on in-memory, SQLite :memory: and SQLite file stores; after steps, GET checkpoint through the registered gorilla/mux handlers (httptest server) and through the bundled client for every known ID and for unknown / odd IDs (upper case, truncated, extended, -, _, ., %2F, empty, .., 200 characters, %00, non-ASCII, spaces), GET logs decoded and sorted; whenever the service hands out an ETag or Last-Modified a later probe revalidates with it (304 only while the stored bytes are unchanged); a quarter of the probes run while the store fails Logs / ReadOps / GetLatest, or (SQLite through the wrapping database/sql driver) while Query or the first, second or third Rows.Next fails (an error status is the only truthful answer: never 404, never \'does not exist\', never a 200 list that is not the stored set); compared with the model and the monitors 200 => that log holds exactly these bytes, else 404, client maps 404 to ErrNotExist')
+     rule='histories of accepted and refused updates over 1..4 logs (IDs from log.ID) on in-memory, SQLite :memory: and SQLite file stores; after steps, GET checkpoint through the registered gorilla/mux handlers (httptest server) and through the bundled client for every known ID and for unknown / odd IDs (upper case, truncated, extended, -, _, ., %2F, empty, .., 200 characters, %00, non-ASCII, spaces), GET logs decoded and sorted; whenever the service hands out an ETag or Last-Modified a later probe revalidates with it (304 only while the stored bytes are unchanged; between two probes every log is refreshed with the SAME text under other signature bytes); a read parked inside storage, an update accepted, then a second read (it must see the update); a quarter of the probes run while the store fails Logs / ReadOps / GetLatest, or (SQLite through the wrapping database/sql driver) while Query or the first, second or third Rows.Next fails (an error status is the only truthful answer: never 404, never \'does not exist\', never a 200 list that is not the stored set); compared with the model and the monitors 200 => that log holds exactly these bytes, else 404, client maps 404 to ErrNotExist')
 
 prop('C18',
      modules=['WitnessVerif.Props.C18'],
@@ -271,5 +271,5 @@ prop('C14',
      scenarios=lambda tier: [sc('omni'), sc('tiles'), sc('feeder'), sc('binary')],
      diverge={'TF': None, 'TP': None, 'FD': {'closedloop'}},
      nontrivial_line=lambda k, line: k in ('OM', 'OMF', 'TL', 'BINP', 'BIND'),
-     rule='omniwitness.Main in-process with ConfigLogs set to a generated configuration of seven logs sharing one key, one or two for every feeder type of the shipped configuration (sumdb, two tlog-tiles, pixel with height-1 tiles below a path, rekor as the active shard and as an inactive shard, serverless below a path) and one push-only log, served by independent in-memory stub log servers that accept only canonical paths (custom http.Transport), FeedInterval 40 ms, HTTP API on a local listener; growth schedules crossing 255/256/257 and 512/513 (thorough: 65535/65536/65537), in-memory storage (same object across restarts) and file-backed SQLite (reopened), the service restarted after every step; after each growth GET /witness/v0/logs/<id>/checkpoint must serve the published size and root, cosigned, within 200 poll intervals; then a roll-back (every log in turn presents half its size for 8 polls: the service neither stops nor moves, and follows again afterwards), then a fork of one log (diverging below the witnessed size), with and without restart: the served checkpoint must stay; plus the long-running SumDB feeders of the tiles scenario (small log and 65,800-leaf log, no restart), and the feeder scenario: every failure-free feed cycle against the real witness behind the real adapter is compared (calls, outcome, witness state afterwards) with the closed-loop model Omni.feedCycle that the byte-level theorem is about',
+     rule='omniwitness.Main in-process with ConfigLogs set to a generated configuration of seven logs sharing one key, one or two for every feeder type of the shipped configuration (sumdb, two tlog-tiles, pixel with height-1 tiles below a path, rekor as the active shard and as an inactive shard, serverless below a path) and one push-only log, served by independent in-memory stub log servers that accept only canonical paths (custom http.Transport), FeedInterval 40 ms, HTTP API on a local listener; growth schedules crossing 255/256/257 and 512/513 (thorough: 65535/65536/65537), in-memory storage (same object across restarts) and file-backed SQLite (reopened), the service restarted after every step; after each growth GET /witness/v0/logs/<id>/checkpoint must serve the published size and root, cosigned, within 200 poll intervals; then a roll-back (every log in turn presents half its size for 8 polls: the service neither stops nor moves, and follows again afterwards), an outage (every log grows while its tiles / proof endpoint answer 503 for six polls, so that each feed cycle uses up its whole deadline, then recovers: the service must follow again), then a fork of one log (diverging below the witnessed size), with and without restart: the served checkpoint must stay; plus the long-running SumDB feeders of the tiles scenario (small log and 65,800-leaf log, no restart), and the feeder scenario: every failure-free feed cycle against the real witness behind the real adapter is compared (calls, outcome, witness state afterwards) with the closed-loop model Omni.feedCycle that the byte-level theorem is about',
      assumptions=['liveness bound (poll intervals) and goroutine wiring are runtime observations'])
